@@ -66,10 +66,10 @@ func c19Single(c *core.Ctx) {
 	sx := core.NewSymx()
 	// where the composed value goes: the four carriers
 	want := map[string]string{
-		"(*agglayer/types.GlobalIndex).Hash":                                  "LE32", // PP commitment
-		"(*agglayer/types.ImportedBridgeExit).GlobalIndexToLittleEndianBytes": "LE32", // FEP commitment
-		"agglayer/grpc.convertToProtoImportedBridgeExit":                      "BE32", // Agglayer wire
-		"aggsender/aggchainproofclient.convertAggchainProofRequestToGrpcRequest":  "BE32", // prover request
+		"(*agglayer/types.GlobalIndex).Hash":                                     "LE32", // PP commitment
+		"(*agglayer/types.ImportedBridgeExit).GlobalIndexToLittleEndianBytes":    "LE32", // FEP commitment
+		"agglayer/grpc.convertToProtoImportedBridgeExit":                         "BE32", // Agglayer wire
+		"aggsender/aggchainproofclient.convertAggchainProofRequestToGrpcRequest": "BE32", // prover request
 	}
 	for _, cs := range c.AllCallsTo(genGI) {
 		call := cs.Instr.(*ssa.Call)
@@ -247,8 +247,8 @@ func c19LE(c *core.Ctx) {
 
 func init() {
 	register(&Property{
-		ID:    "C19",
-		Level: "other",
+		ID:          "C19",
+		Level:       "other",
 		Explanation: "Decides the 'same value everywhere' half of the property structurally: C19-args — at each of the four encoding sites (PP commitment GlobalIndex.Hash, FEP commitment GlobalIndexToLittleEndianBytes, the Agglayer wire conversion, the prover request) the three arguments of GenerateGlobalIndex are MainnetFlag, RollupIndex, LeafIndex of ONE GlobalIndex object, in that order, and the single decode site stores DecodeGlobalIndex's three results into the same-named fields and propagates its error; C19-single — every call of the encoder feeds the encoding its consumer expects (32-byte little-endian for the two commitments, 32-byte big-endian for wire and prover), a new encoder call site or any function that reads RollupIndex and LeafIndex and builds a big.Int itself is reported, and the optimistic commitment uses the claim's own on-chain index through the same little-endian helper; C19-le — the little-endian helper reverses the big-endian magnitude into a 32-byte buffer (structure only). C19-encode — the bytes GenerateGlobalIndex hands to SetBytes, evaluated per edge of `if mainnetFlag`: 01‖BE32(0)‖BE32(leaf) on the mainnet edge and BE32(rollup)‖BE32(leaf) otherwise (= flag·2^64 + rollup·2^32 + leaf with the rollup part forced to zero for mainnet, the contract's layout), and no FillBytes into the shared scratch buffer between a FillBytes and the append that copies its result; C19-decode — mainnetFlag is true exactly on the edge of a recognised 'bit 64 is set' test (len(Bytes())==9, BitLen()>64, Bit(64)==1), leaf = the last ≤4 bytes, rollup = the ≤4 bytes before them, BytesToUint32 left-pads and reads big-endian; C19-carry (shared with C10-commit) — both signed commitments hold one element per claim, for the whole range, in order, built from that claim's own index in storage of its own. With big.Int.Bytes() being the minimal big-endian form these premises give decode(encode(f, r, l)) = (f, f ? 0 : r, l) by a three-line argument (DESIGN §4 C19); the checker decides the premises, not the arithmetic itself. Added after round 7: C19-alias (shared with C10-alias: every message entry owns its bytes), C19-order (one imported exit per claim, shared with C03-order).",
 		Rules: []Rule{
 			{ID: "C19-order", Floor: 5, Run: shared("C19-order", c03Order), Text: "(shared with C03-order) one imported bridge exit per claim, in order: no claim is dropped by its (truncated) global index"},
@@ -689,10 +689,10 @@ func c19Decode(c *core.Ctx) {
 	L := "len(" + B + ")"
 	// recognised forms of "bit 64 is set"
 	flagForms := map[string]bool{
-		"(" + L + " == const(9))": true,
-		"((*math/big.Int).BitLen(globalIndex) > const(64))":  true,
-		"((*math/big.Int).BitLen(globalIndex) >= const(65))": true,
-		"((*math/big.Int).BitLen(globalIndex) == const(65))": true,
+		"(" + L + " == const(9))":                                   true,
+		"((*math/big.Int).BitLen(globalIndex) > const(64))":         true,
+		"((*math/big.Int).BitLen(globalIndex) >= const(65))":        true,
+		"((*math/big.Int).BitLen(globalIndex) == const(65))":        true,
 		"((*math/big.Int).Bit(globalIndex, const(64)) == const(1))": true,
 		"((*math/big.Int).Bit(globalIndex, const(64)) != const(0))": true,
 	}
